@@ -137,6 +137,8 @@ InitS ==
     pend |-> <<>>,          \* device operations <<device, op>> still to do when parked inside an awaiting device call
     cont |-> "",            \* what the parked sequence of device operations belongs to: "pausing" | "susp" | "resume" | "fin"
     finq |-> <<>>,          \* clean-up items <<run key, "mons" | flyer>> still to do (clear_monitors / backstop_collect per open run)
+    reason |-> "",          \* RunEngine._reason: "" | "req" (the reason handed to an accepted abort())
+    exitReason |-> "",      \* exit_reason (local of _run): "" | "exc" (the text of the exception that ended the plan)
     planRet |-> FALSE ]     \* the plan ran to completion (StopIteration out of the last generator)
 
 Init == S = InitS /\ obs = <<>>
@@ -249,6 +251,7 @@ Call(p0, ri) ==
                     !.resps = IF TrippedFuts(S) = <<>> THEN <<Val(None)>> ELSE <<Val(None), Val(None)>>,
                     !.hasTask = FALSE, !.taskRes = "none", !.taskExc = None, !.exitExc = None, !.planRet = FALSE,
                     !.permit = TRUE, !.blocking = FALSE, !.cancel = FALSE, !.stashed = None, !.lateRet = "",
+                    !.reason = "", !.exitReason = "",
                     !.pc = "start", !.recIntr = ri]
   /\ obs' = <<Ev("call", "run", IF ri THEN "ri" ELSE "", "", "", 0, 0)>>
 
@@ -281,6 +284,7 @@ CallTerminate(op) ==
   /\ S' = [S EXCEPT !.caller = [phase |-> "blocked", op |-> op], !.interrupted = TRUE,
                     !.st = TermState(op), !.exc = TermExc(op),
                     !.exitStatus = IF op \in {"abort", "halt"} THEN "abort" ELSE @,
+                    !.reason = IF op = "abort" THEN "req" ELSE @,
                     !.blocking = FALSE, !.permit = TRUE]
   /\ obs' = <<Ev("call", op, "", "", "", 0, 0), EvState("paused", TermState(op))>>
 
@@ -438,6 +442,7 @@ ReqTerminate(op) ==
         /\ obs' = ReqObs(op, l.ev, "exc:TransitionError")
      ELSE
         /\ S' = [s EXCEPT !.interrupted = TRUE, !.exitStatus = IF op = "abort" THEN "abort" ELSE @,
+                          !.reason = IF op = "abort" THEN "req" ELSE @,
                           !.st = TermState(op), !.cancel = (@ \/ s.hasTask)]
         /\ obs' = ReqObs(op, l.ev \o <<EvState(s.st, TermState(op))>>, IF s.hasTask THEN "ok" ELSE "exc:Err:AttributeError")
 
@@ -448,7 +453,8 @@ ReqTerminatePaused(op) ==
   /\ S.pc = "paused" /\ S.st = "paused" /\ S.caller.phase = "blocked" /\ S.permit /\ S.lateRet = ""
   /\ op \in {"abort", "stop", "halt"}
   /\ S' = [S EXCEPT !.interrupted = TRUE, !.st = TermState(op), !.exc = TermExc(op),
-                    !.exitStatus = IF op \in {"abort", "halt"} THEN "abort" ELSE @, !.lateRet = op]
+                    !.exitStatus = IF op \in {"abort", "halt"} THEN "abort" ELSE @, !.lateRet = op,
+                    !.reason = IF op = "abort" THEN "req" ELSE @]
   /\ obs' = <<Ev("req", op, "", "", "", 0, 0), EvState("paused", TermState(op))>>
 \* (the helper thread and the main thread are both released by the task's done-callback: their returns come in either order)
 LateReqRet ==
@@ -976,8 +982,9 @@ Exit ==
      CASE e = "StopIteration" -> S' = [S EXCEPT !.exitStatus = "success", !.pc = "tail"]
        [] e = "RequestStop" -> S' = [S EXCEPT !.exitStatus = "success", !.pc = "tail"]
        [] e \in {"FailedPause", "RequestAbort", "Cancelled", "PlanHalt"} -> S' = [S EXCEPT !.exitStatus = "abort", !.pc = "tail"]
-       [] e = "GeneratorExit" -> S' = [S EXCEPT !.exitStatus = "fail", !.taskExc = "Err:ValueError", !.pc = "fin"]
-       [] OTHER -> S' = [S EXCEPT !.exitStatus = "fail", !.taskExc = e, !.pc = "fin"]
+       [] e = "GeneratorExit" -> S' = [S EXCEPT !.exitStatus = "fail", !.taskExc = "Err:ValueError", !.pc = "fin"]   \* (str(err) = "")
+       \* exit_reason = str(err): the exceptions of this vocabulary all carry a text
+       [] OTHER -> S' = [S EXCEPT !.exitStatus = "fail", !.taskExc = e, !.exitReason = "exc", !.pc = "fin"]
   /\ obs' = <<>>
 
 \* the sleep(0) after the plan ended (P3): a pending cancel surfaces here and ends the task as cancelled
@@ -987,11 +994,13 @@ TailStep ==
   /\ obs' = <<>>
 
 \* finally: 1762-1803
-RECURSIVE CloseAll(_, _, _)
-CloseAll(ks, rs, status) ==
+\* (the stop documents of the runs the ENGINE closes carry `exit_reason or self._reason` -- their reason class rc travels in
+\*  the event's stream slot; a plan's own close_run carries what the message says: nothing, in the programs)
+RECURSIVE CloseAll(_, _, _, _)
+CloseAll(ks, rs, status, rc) ==
   IF ks = {} THEN <<>>
   ELSE LET k == CHOOSE x \in ks : \A y \in ks : rs[x].ord <= rs[y].ord
-       IN <<EvDoc("stop", "", status, 0, rs[k].ord)>> \o NevSeq(Streams, rs[k].ctr, rs[k].ord) \o CloseAll(ks \ {k}, rs, status)
+       IN <<EvDoc("stop", rc, status, 0, rs[k].ord)>> \o NevSeq(Streams, rs[k].ctr, rs[k].ord) \o CloseAll(ks \ {k}, rs, status, rc)
 RECURSIVE ClearMonsAll(_, _)
 ClearMonsAll(ks, rs) ==
   IF ks = {} THEN <<>>
@@ -1015,7 +1024,7 @@ FinRest(s) ==
                !.gens = [i \in 1..Len(s.gens) |-> [s.gens[i] EXCEPT !.done = TRUE]]]
 FinRestObs2(s, cr) ==
   DevOps(s.staged, "unstage")
-  \o CloseAll(OpenKeysOf(s.runs), s.runs, s.exitStatus) \o CloseGens(s.gens, cr)
+  \o CloseAll(OpenKeysOf(s.runs), s.runs, s.exitStatus, IF s.exitReason # "" THEN s.exitReason ELSE s.reason) \o CloseGens(s.gens, cr)
   \o (IF "idle" \in Table[s.st] THEN <<EvState(s.st, "idle")>> ELSE <<>>)
 FinRestObs(s, cr) == ClearMonsAll(OpenKeysOf(s.runs), s.runs) \o FinRestObs2(s, cr)
 
